@@ -127,12 +127,41 @@ def _build(nfa, seq, start, icase, dotall):
     return cur
 
 
+def group_dfa(pattern, flags, name):
+    """language of the text one capture group can hold (its sub-pattern on its own); name: group name or 1-based index"""
+    if isinstance(pattern, bytes):
+        pattern = pattern.decode("latin-1")
+    parsed = sp.parse(pattern, flags)
+    gid = parsed.state.groupdict.get(name) if isinstance(name, str) else name
+    found = []
+
+    def walk(seq):
+        for op, av in seq:
+            o = str(op)
+            if o == "SUBPATTERN":
+                if av[0] == gid:
+                    found.append(av[3])
+                walk(av[3])
+            elif o in ("MAX_REPEAT", "MIN_REPEAT"):
+                walk(av[2])
+            elif o == "BRANCH":
+                for alt in av[1]:
+                    walk(alt)
+    walk(parsed)
+    if not found:
+        return None
+    nfa = NFA()
+    s = nfa.new()
+    e = _build(nfa, found[0], s, bool(flags & re.I), bool(flags & re.S))
+    return DFA.from_nfa(nfa, s, e, f"group {name} of /{pattern[:30]}/")
+
+
 def _ends_with_dollar(parsed):
     items = list(parsed)
     while items:
         op, av = items[-1]
         if str(op) == "AT" and "END" in str(av):
-            return True
+            return "strict" if "END_STRING" in str(av) else True   # \\Z vs `$`
         if str(op) == "SUBPATTERN":
             items = list(av[3])
             continue
@@ -202,8 +231,11 @@ class DFA:
         icase = bool(flags & re.I)
         dotall = bool(flags & re.S)
         e = _build(nfa, parsed, s, icase, dotall)
-        if not _ends_with_dollar(parsed):
+        end = _ends_with_dollar(parsed)
+        if not end:
             nfa.t(e, ALPHA, e)
+        elif end == "strict":
+            pass    # \\Z: the match ends where the string ends
         else:
             # `$` also matches before a trailing newline
             e2 = nfa.new()
@@ -322,6 +354,49 @@ class DFA:
                     seen[nx] = seen[cur] + ch
                     q.append(nx)
         return None
+
+    def max_length(self):
+        """length of the longest accepted string; None when the language is infinite, -1 when empty"""
+        n = len(self.trans)
+        succ = [set(self.trans[i].values()) for i in range(n)]
+        # co-reachable states (can still reach an accepting state)
+        pred = [set() for _ in range(n)]
+        for i in range(n):
+            for j in succ[i]:
+                pred[j].add(i)
+        live, st = set(self.accept), list(self.accept)
+        while st:
+            x = st.pop()
+            for y in pred[x]:
+                if y not in live:
+                    live.add(y)
+                    st.append(y)
+        if self.start not in live:
+            return -1
+        best, state = {}, {}
+
+        def longest(i):
+            if state.get(i) == 1:
+                raise OverflowError
+            if i in best:
+                return best[i]
+            state[i] = 1
+            m = 0 if i in self.accept else -1
+            for j in succ[i]:
+                if j in live:
+                    m = max(m, 1 + longest(j))
+            state[i] = 2
+            best[i] = m
+            return m
+        import sys
+        old = sys.getrecursionlimit()
+        sys.setrecursionlimit(max(old, 20000))
+        try:
+            return longest(self.start)
+        except OverflowError:
+            return None
+        finally:
+            sys.setrecursionlimit(old)
 
     def accepts(self, s):
         st = self.start
